@@ -37,3 +37,219 @@ def read(repo, rel):
 
 def srcsha(text):
     return hashlib.sha256(text.encode()).hexdigest()[:16]
+
+
+# --------------------------------------------------------------------------- expression printer
+
+class ExprPrinter:
+    """prints a Python arithmetic expression as a fully parenthesised Lean term.
+    mode 'real': over ℝ (Mathlib), non-literal exponents become Real.rpow;
+    mode 'float': over Float (core), exponents through Float.pow;
+    mode 'field': over an arbitrary field `K` (only literal natural exponents allowed)."""
+
+    def __init__(self, mode, rename=None, consts=None):
+        self.mode = mode
+        self.rename = rename or {}
+        self.consts = consts or {}
+        self.ty = {"real": "ℝ", "float": "Float", "field": "K"}[mode]
+
+    def name(self, n):
+        return self.rename.get(n, n)
+
+    def num(self, v):
+        if isinstance(v, bool):
+            raise Unrecognised("boolean in arithmetic")
+        if isinstance(v, int):
+            return f"({v} : {self.ty})" if v >= 0 else f"(-{-v} : {self.ty})"
+        if isinstance(v, float):
+            r = repr(v)
+            if "e" in r or "inf" in r or "nan" in r:
+                raise Unrecognised(f"float literal {r}")
+            return f"({r} : {self.ty})"
+        raise Unrecognised(f"constant {v!r}")
+
+    def p(self, e):
+        if isinstance(e, ast.Constant):
+            return self.num(e.value)
+        if isinstance(e, ast.Name):
+            return self.name(e.id)
+        if isinstance(e, ast.Attribute) and isinstance(e.value, ast.Name) and e.value.id == "self":
+            return self.name(e.attr)
+        if isinstance(e, ast.Attribute) and isinstance(e.value, ast.Name) and e.value.id in ("np", "numpy", "math") and e.attr == "pi":
+            return {"real": "Real.pi", "float": "(3.141592653589793 : Float)", "field": "pi"}[self.mode]
+        if isinstance(e, ast.UnaryOp) and isinstance(e.op, ast.USub):
+            return f"(-{self.p(e.operand)})"
+        if isinstance(e, ast.UnaryOp) and isinstance(e.op, ast.UAdd):
+            return self.p(e.operand)
+        if isinstance(e, ast.BinOp):
+            a, b = e.left, e.right
+            if isinstance(e.op, ast.Pow):
+                if isinstance(b, ast.Constant) and isinstance(b.value, int) and not isinstance(b.value, bool) and b.value >= 0:
+                    if self.mode == "float":
+                        return f"(Float.pow {self.p(a)} ({b.value} : Float))"
+                    return f"({self.p(a)} ^ ({b.value} : ℕ))"
+                if self.mode == "real":
+                    return f"(Real.rpow {self.p(a)} {self.p(b)})"
+                if self.mode == "float":
+                    return f"(Float.pow {self.p(a)} {self.p(b)})"
+                raise Unrecognised("non-literal exponent over a field")
+            op = {ast.Add: "+", ast.Sub: "-", ast.Mult: "*", ast.Div: "/"}.get(type(e.op))
+            if op is None:
+                raise Unrecognised(f"operator {type(e.op).__name__}")
+            return f"({self.p(a)} {op} {self.p(b)})"
+        if isinstance(e, ast.Call) and isinstance(e.func, ast.Attribute) and isinstance(e.func.value, ast.Name) \
+                and e.func.value.id in ("np", "numpy", "math") and len(e.args) == 1 and not e.keywords:
+            f = e.func.attr
+            table = {"real": {"sqrt": "Real.sqrt", "sin": "Real.sin", "cos": "Real.cos", "exp": "Real.exp"},
+                     "float": {"sqrt": "Float.sqrt", "sin": "Float.sin", "cos": "Float.cos", "exp": "Float.exp"},
+                     "field": {}}[self.mode]
+            if f in table:
+                return f"({table[f]} {self.p(e.args[0])})"
+        raise Unrecognised(f"expression {ast.dump(e)[:120]}")
+
+
+def find_class(tree, name):
+    for n in tree.body:
+        if isinstance(n, ast.ClassDef) and n.name == name:
+            return n
+    raise Unrecognised(f"class {name} not found")
+
+
+def find_func(node, name):
+    for n in node.body:
+        if isinstance(n, ast.FunctionDef) and n.name == name:
+            return n
+    raise Unrecognised(f"function {name} not found")
+
+
+def strip_doc(body):
+    if body and isinstance(body[0], ast.Expr) and isinstance(body[0].value, ast.Constant) and isinstance(body[0].value.value, str):
+        return body[1:]
+    return body
+
+
+def straight_line(fn, pr, cond_names):
+    """a method body made of `x = e`, `if <cond>: x = e1 else: x = e2` and a final `return [names]`
+    -> (list of (name, lean rhs), returned names)"""
+    lets, ret = [], None
+    body = strip_doc(fn.body)
+    for st in body:
+        if ret is not None:
+            raise Unrecognised("statement after return")
+        if isinstance(st, ast.Assign) and len(st.targets) == 1 and isinstance(st.targets[0], ast.Name):
+            lets.append((st.targets[0].id, pr.p(st.value)))
+        elif isinstance(st, ast.If):
+            c = st.test
+            if isinstance(c, ast.Attribute) and isinstance(c.value, ast.Name) and c.value.id == "self" and c.attr in cond_names:
+                cname = c.attr
+            elif isinstance(c, ast.Name) and c.id in cond_names:
+                cname = c.id
+            else:
+                raise Unrecognised("if-condition " + ast.dump(c)[:80])
+            if not (len(st.body) == 1 and len(st.orelse) == 1 and isinstance(st.body[0], ast.Assign) and isinstance(st.orelse[0], ast.Assign)):
+                raise Unrecognised("if-shape")
+            t1, t2 = st.body[0].targets, st.orelse[0].targets
+            if not (len(t1) == 1 and len(t2) == 1 and isinstance(t1[0], ast.Name) and isinstance(t2[0], ast.Name) and t1[0].id == t2[0].id):
+                raise Unrecognised("if-branches assign different names")
+            lets.append((t1[0].id, f"(if {cname} then {pr.p(st.body[0].value)} else {pr.p(st.orelse[0].value)})"))
+        elif isinstance(st, ast.Return) and isinstance(st.value, (ast.List, ast.Tuple)) and all(isinstance(x, ast.Name) for x in st.value.elts):
+            ret = [x.id for x in st.value.elts]
+        else:
+            raise Unrecognised("statement " + ast.dump(st)[:100])
+    if ret is None:
+        raise Unrecognised("no return")
+    return lets, ret
+
+
+def lean_str_list(xs):
+    return "[" + ", ".join('"' + x + '"' for x in xs) + "]"
+
+
+# --------------------------------------------------------------------------- G4: pair potentials (C12)
+
+PAIR_METHODS = [("lennard_jones", "lj", []), ("inverse_power_law", "ipl", ["n", "A"]), ("harmonic_hertz", "hh", ["alpha"])]
+
+
+@generator("pair")
+def gen_pair(repo):
+    rel = "PyMatterSim/static/hessians.py"
+    src = read(repo, rel)
+    tree = ast.parse(src)
+    cls = find_class(tree, "PairInteractions")
+    # __init__ must store its arguments under the same names
+    init = find_func(cls, "__init__")
+    stored = {}
+    for st in strip_doc(init.body):
+        if isinstance(st, ast.Assign) and isinstance(st.targets[0], ast.Attribute) and isinstance(st.value, ast.Name):
+            stored[st.targets[0].attr] = st.value.id
+        else:
+            raise Unrecognised("PairInteractions.__init__ shape")
+    if stored != {k: k for k in ["r", "epsilon", "sigma", "r_c", "shift"]}:
+        raise Unrecognised(f"PairInteractions.__init__ stores {stored}")
+    outR = ["import Mathlib.Analysis.SpecialFunctions.Pow.Real", "", "/-! REGENERATED by translator/pms2lean.py from " + rel + " — do not edit -/",
+            "set_option linter.unusedVariables false", "noncomputable section", "namespace Pms.GenR.Pair", ""]
+    outF = ["/-! REGENERATED by translator/pms2lean.py from " + rel + " — do not edit -/", "set_option linter.unusedVariables false", "namespace Pms.Gen.PairF", ""]
+    rets = {}
+    for meth, short, extra in PAIR_METHODS:
+        fn = find_func(cls, meth)
+        params = [a.arg for a in fn.args.args[1:]]
+        if params != extra:
+            raise Unrecognised(f"{meth} parameters {params}")
+        for mode, out in (("real", outR), ("float", outF)):
+            pr = ExprPrinter(mode)
+            lets, ret = straight_line(fn, pr, {"shift"})
+            rets[short] = ret
+            ty = pr.ty
+            args = " ".join(["r", "epsilon", "sigma", "r_c"] + extra)
+            for target in ret:
+                out.append(f"def {short}_{target} ({args} : {ty}) (shift : Bool) : {ty} :=")
+                for n, rhs in lets:
+                    out.append(f"  let {n} : {ty} := {rhs}")
+                out.append(f"  {target}")
+                out.append("")
+    # caller dispatch, deep
+    caller = find_func(cls, "caller")
+    rows = []
+    for st in strip_doc(caller.body):
+        if isinstance(st, ast.If):
+            t = st.test
+            if not (isinstance(t, ast.Compare) and len(t.ops) == 1 and isinstance(t.ops[0], ast.Eq)
+                    and ast.unparse(t.left) == "interaction_params.model_name" and isinstance(t.comparators[0], ast.Attribute)
+                    and ast.unparse(t.comparators[0].value) == "ModelName"):
+                raise Unrecognised("caller test " + ast.unparse(t))
+            if st.orelse or len(st.body) != 1 or not isinstance(st.body[0], ast.Return):
+                raise Unrecognised("caller branch shape")
+            rows.append((t.comparators[0].attr, st.body[0].value))
+        elif isinstance(st, ast.Return):
+            rows.append(("default", st.value))
+        else:
+            raise Unrecognised("caller statement")
+    table = []
+    for key, call in rows:
+        if not (isinstance(call, ast.Call) and isinstance(call.func, ast.Attribute) and ast.unparse(call.func.value) == "self" and not call.args):
+            raise Unrecognised("caller call shape")
+        kws = []
+        for kw in call.keywords:
+            v = kw.value
+            if not (isinstance(v, ast.Attribute) and ast.unparse(v.value) == "interaction_params"):
+                raise Unrecognised("caller keyword")
+            kws.append((kw.arg, v.attr))
+        table.append((key, call.func.attr, kws))
+    enum = find_class(tree, "ModelName")
+    members = [st.targets[0].id for st in enum.body if isinstance(st, ast.Assign)]
+    deep = ["/-! REGENERATED by translator/pms2lean.py from " + rel + " — do not edit -/", "namespace Pms.Gen.PairTab", "",
+            "def models : List String := " + lean_str_list(members), "",
+            "/-- (tested enum member or \"default\", method called, keyword ↦ field of interaction_params) in source order -/",
+            "def caller : List (String × String × List (String × String)) := ["]
+    deep.append(",\n".join("  (\"%s\", \"%s\", [%s])" % (k, m, ", ".join('("%s", "%s")' % kv for kv in kws)) for k, m, kws in table))
+    deep.append("]")
+    deep.append("")
+    for short, ret in rets.items():
+        deep.append(f"def {short}_returns : List String := {lean_str_list(ret)}")
+    deep.append("")
+    deep.append("end Pms.Gen.PairTab")
+    outR += ["end Pms.GenR.Pair", "end"]
+    outF += ["end Pms.Gen.PairF"]
+    return [("Pms/GenR/Pair.lean", "\n".join(outR) + "\n", [rel]),
+            ("Pms/Gen/PairF.lean", "\n".join(outF) + "\n", [rel]),
+            ("Pms/Gen/PairTab.lean", "\n".join(deep) + "\n", [rel])]
